@@ -371,17 +371,19 @@ where
             let run_futs = policy
                 .other_parties()
                 .map(async |p| client.run(p, run_request.clone()).await);
-            if let Err(err) = future::try_join_all(run_futs).await
-                && let Some(url) = policy.output
-            {
-                let _ = client
-                    .output(
-                        url.clone(),
-                        Err(OutputError::RequestRunError {
-                            source: Box::new(err),
-                        }),
-                    )
-                    .await;
+            if let Err(err) = future::try_join_all(run_futs).await {
+                if let Some(url) = policy.output {
+                    let _ = client
+                        .output(
+                            url.clone(),
+                            Err(OutputError::RequestRunError {
+                                source: Box::new(err),
+                            }),
+                        )
+                        .await;
+                }
+                // Stop the state machine (and return the permit) also when there is no
+                // output destination to notify, the followers are not all running.
                 return ControlFlow::Break(());
             }
             debug!("followers are running");
@@ -691,17 +693,21 @@ where
                                 };
                                 client.consts(p, const_req).await
                             });
-                            if let Err(err) = future::try_join_all(const_futs).await
-                                && let Some(url) = policy_cl.output
-                            {
-                                let _ = client
-                                    .output(
-                                        url,
-                                        Err(OutputError::SendConstsError {
-                                            source: Box::new(err),
-                                        }),
-                                    )
-                                    .await;
+                            if let Err(err) = future::try_join_all(const_futs).await {
+                                if let Some(url) = policy_cl.output {
+                                    let _ = client
+                                        .output(
+                                            url,
+                                            Err(OutputError::SendConstsError {
+                                                source: Box::new(err),
+                                            }),
+                                        )
+                                        .await;
+                                }
+                                // The computation cannot complete without the constants, stop
+                                // the state machine (and return the permit).
+                                let _ = cmd_sender.send(PolicyCmd::Stop).await;
+                                return;
                             }
                             // returns an error if the state machine is dropped, nothing to do
                             let _ = client_send.send(client);
